@@ -107,8 +107,10 @@ def scaleDown (b : BBox) (s : Nat) : Outcome BBox :=
 
 /-- `iter_coords`: row-major `(x, y)`; `y_min..=y_max` × `x_min..=x_max` -/
 def iterCoords (b : BBox) : List (Nat × Nat) :=
-  (List.range' b.ymin (b.ymax + 1 - b.ymin)).flatMap fun y =>
-    (List.range' b.xmin (b.xmax + 1 - b.xmin)).map fun x => (x, y)
+  if b.xmax < b.xmin then []   -- same list as below (every row is empty); avoids walking the rows
+  else
+    (List.range' b.ymin (b.ymax + 1 - b.ymin)).flatMap fun y =>
+      (List.range' b.xmin (b.xmax + 1 - b.xmin)).map fun x => (x, y)
 
 /-- one cell of `iter_bbox_grid` (tile_bbox.rs:640-650), including the u32 overflow sites
     `coord.x * size`, `x + size - 1` and the two `unwrap`s -/
